@@ -33,3 +33,26 @@ func VerifAmpServerConnStates(t *Transport) (n int, bytesSent, bytesReceived int
 	}
 	return
 }
+
+// VerifAmpServerConnPackets: sum of the exported ConnectionStats().PacketsReceived over the same live connections
+// (the counter the sent packet handler's ReceivedPacket increments: one per packet the connection ACCEPTED).
+func VerifAmpServerConnPackets(t *Transport) (pkts uint64) {
+	t.mutex.Lock()
+	defer t.mutex.Unlock()
+	seen := map[*Conn]bool{}
+	for _, h := range t.handlers {
+		var c *Conn
+		switch v := h.(type) {
+		case *wrappedConn:
+			c = v.Conn
+		case *Conn:
+			c = v
+		}
+		if c == nil || seen[c] || c.sentPacketHandler == nil {
+			continue
+		}
+		seen[c] = true
+		pkts += c.ConnectionStats().PacketsReceived
+	}
+	return
+}
